@@ -16,6 +16,7 @@ import (
 	"github.com/ory/keto/internal/namespace"
 	"github.com/ory/keto/internal/namespace/ast"
 	"github.com/ory/keto/internal/relationtuple"
+	"github.com/ory/keto/ketoapi"
 )
 
 // ---------------------------------------------------------------------------
@@ -75,8 +76,20 @@ func not(c ast.Child) ast.Child { return &ast.InvertResult{Child: c} }
 func or(cs ...ast.Child) *ast.SubjectSetRewrite {
 	return &ast.SubjectSetRewrite{Operation: ast.OperatorOr, Children: cs}
 }
+// and mirrors what the real parser builds for "x && y ...": its first operand,
+// unless it is a parenthesised group, is wrapped as or[x] (Child.AsRewrite) and
+// only the top-level expression is simplified, so the wrapper stays.
 func and(cs ...ast.Child) *ast.SubjectSetRewrite {
+	if _, group := cs[0].(*ast.SubjectSetRewrite); !group {
+		cs = append([]ast.Child{or(cs[0])}, cs[1:]...)
+	}
 	return &ast.SubjectSetRewrite{Operation: ast.OperatorAnd, Children: cs}
+}
+
+// gor is a parenthesised "(x || y ...)" group below another operator: the
+// parser leaves it as or[or[x], y, ...].
+func gor(cs ...ast.Child) *ast.SubjectSetRewrite {
+	return or(append([]ast.Child{or(cs[0])}, cs[1:]...)...)
 }
 
 // plain relation typed [N] (subject ids of namespace N only)
@@ -152,9 +165,11 @@ func shapes(family int) []cfgShape {
 			mkShape("p1=permits(p0)&&inc(r1);p0=inc(r0)", r0, r1, perm("p0", or(inc("r0"))), perm("p1", and(inc("p0"), inc("r1")))),
 			mkShape("p1=ttu(r1->p0);p0=inc(r0)", r0, r1, perm("p0", or(inc("r0"))), perm("p1", or(ttu("r1", "p0")))),
 			mkShape("p=(inc(r0)&&inc(r1))||ttu(r1->r0)", r0, r1, perm("p0", or(and(inc("r0"), inc("r1")), ttu("r1", "r0")))),
-			mkShape("p=(inc(r0)||inc(r1))&&!ttu(r1->r0)", r0, r1, perm("p0", and(or(inc("r0"), inc("r1")), not(ttu("r1", "r0"))))),
+			mkShape("p=(inc(r0)||inc(r1))&&!ttu(r1->r0)", r0, r1, perm("p0", and(gor(inc("r0"), inc("r1")), not(ttu("r1", "r0"))))),
 			mkShape("p=!(inc(r0)&&inc(r1))", r0, r1, perm("p0", or(not(and(inc("r0"), inc("r1")))))),
-			mkShape("p=!(inc(r0)||inc(r1))", r0, r1, perm("p0", or(not(or(inc("r0"), inc("r1")))))),
+			mkShape("p=!(inc(r0)||inc(r1))", r0, r1, perm("p0", or(not(gor(inc("r0"), inc("r1")))))),
+			mkShape("p=(inc(r0)||inc(r1))&&(inc(r1)||inc(r0))", r0, r1, perm("p0", and(gor(inc("r0"), inc("r1")), gor(inc("r1"), inc("r0"))))),
+			mkShape("p=(inc(r0)&&inc(r1))||(ttu(r1->r0)&&inc(r0))", r0, r1, perm("p0", or(and(inc("r0"), inc("r1")), and(ttu("r1", "r0"), inc("r0"))))),
 		}
 	case 2:
 		// r0 may hold subject sets N:o#p0; p0 puts && / ! over r1
@@ -176,6 +191,8 @@ func shapes(family int) []cfgShape {
 			mkShape("p=ttu(r1->r0)", r0, r1, perm("p0", or(ttu("r1", "r0")))),
 			mkShape("p=!ttu(r1->r0)", r0, r1, perm("p0", or(not(ttu("r1", "r0"))))),
 			mkShape("p1=permits(p0)&&inc(r1);p0=inc(r0)", r0, r1, perm("p0", or(inc("r0"))), perm("p1", and(inc("p0"), inc("r1")))),
+			// && whose operands are all nested rewrites (they see the depth limit one level earlier)
+			mkShape("p=(inc(r0)||inc(r1))&&(inc(r1)||inc(r0))", r0, r1, perm("p0", and(gor(inc("r0"), inc("r1")), gor(inc("r1"), inc("r0"))))),
 		}
 	case 3:
 		return []cfgShape{
@@ -238,6 +255,10 @@ func (s *cfgShape) renderOPL() string {
 			}
 			return "!" + expr(n.Child, false)
 		case *ast.SubjectSetRewrite:
+			if n.Operation != ast.OperatorAnd && len(n.Children) == 1 {
+				// or[x]: the wrapper the parser puts around a first operand
+				return expr(n.Children[0], top)
+			}
 			op := " || "
 			if n.Operation == ast.OperatorAnd {
 				op = " && "
@@ -423,6 +444,45 @@ func (w *world) subjectValue(s subject) relationtuple.Subject {
 		return &relationtuple.SubjectSet{Namespace: w.shape.nsOf(s.srel), Object: objID(s.sobj), Relation: w.shape.rels[s.srel]}
 	}
 	return &relationtuple.SubjectID{ID: subjID(s.sid)}
+}
+
+// apiTuple: the same relationship by names (subject ids only)
+func (w *world) apiTuple(obj, rel int, s subject) *ketoapi.RelationTuple {
+	t := &ketoapi.RelationTuple{Namespace: w.shape.nsOf(rel), Object: objNames[obj], Relation: w.shape.rels[rel]}
+	if s.isSet {
+		t.SubjectSet = &ketoapi.SubjectSet{Namespace: w.shape.nsOf(s.srel), Object: objNames[s.sobj], Relation: w.shape.rels[s.srel]}
+	} else {
+		t.SubjectID = &subjNames[s.sid]
+	}
+	return t
+}
+
+// v5Mapping maps names to ids the way the SQL mapping manager does in its
+// read-only path (UUIDv5 under the nil network), without a table.
+type v5Mapping struct{}
+
+func (v5Mapping) MapStringsToUUIDs(ctx context.Context, s ...string) ([]uuid.UUID, error) {
+	return v5Mapping{}.MapStringsToUUIDsReadOnly(ctx, s...)
+}
+
+func (v5Mapping) MapStringsToUUIDsReadOnly(ctx context.Context, s ...string) ([]uuid.UUID, error) {
+	out := make([]uuid.UUID, len(s))
+	for i := range s {
+		out[i] = uuid.NewV5(uuid.Nil, s[i])
+	}
+	return out, nil
+}
+
+func (v5Mapping) MapUUIDsToStrings(ctx context.Context, u ...uuid.UUID) ([]string, error) {
+	out := make([]string, len(u))
+	for i := range u {
+		for _, n := range append(append([]string{}, objNames...), subjNames...) {
+			if uuid.NewV5(uuid.Nil, n) == u[i] {
+				out[i] = n
+			}
+		}
+	}
+	return out, nil
 }
 
 func (w *world) tuple(obj, rel int, s subject) *relationtuple.RelationTuple {
